@@ -144,6 +144,17 @@ impl FdtReceiver {
         self.inner.borrow().state
     }
 
+    /// Duration since the last packet of this FDT instance has been received,
+    /// None when the FDT instance is fully received
+    pub fn last_activity_duration_since(
+        &self,
+        earlier: std::time::Instant,
+    ) -> Option<std::time::Duration> {
+        self.obj
+            .as_ref()
+            .map(|obj| obj.last_activity_duration_since(earlier))
+    }
+
     pub fn fdt_instance(&mut self) -> Option<&FdtInstance> {
         if self.fdt_instance.is_none() {
             let inner = self.inner.borrow();
